@@ -72,6 +72,9 @@ PLAN = {
                         0),
                        ('Mixin', 4, 'Args1', True, False, 'ClassOps', 'mce',
                         0),
+                       # a built-in type in the remainder of the MRO
+                       ('TwoB', 4, 'Args1', True, False, 'ClassOps', 'mc',
+                        0),
                        ('Mixin', 4, 'Args1', True, False, 'ClassOps', 'mc',
                         0),
                        ('Mixin', 12, 'Args12', True, False, 'AllOps', 'sim',
